@@ -158,11 +158,11 @@ const (
 func genBigSync(t *rapid.T) SCase {
 	var c SCase
 	// 10 and 14 MiB are beyond msgSize: clamped by the runner while the finding below is known
-	c.TargetBytes = rapid.SampledFrom([]int{512 << 10, 2500 << 10, 5 << 20, 6 << 20, 7 << 20, 7 << 20, 10 << 20, 14 << 20}).Draw(t, "targetBytes")
+	c.TargetBytes = rapid.SampledFrom([]int{512 << 10, 2500 << 10, 5 << 20, 6 << 20, 7 << 20, 7 << 20, 10 << 20, 10 << 20, 14 << 20}).Draw(t, "targetBytes")
 	kind := rapid.SampledFrom([]string{"full", "catchup", "catchup", "offline"}).Draw(t, "bigKind")
 	// catch-up flavours: far behind (thousands of records, the whole backlog is aimed at the target
 	// size) or big records (a few hundred records, 100 of them - one batch - are aimed at the target)
-	bigRecords := rapid.IntRange(0, 2).Draw(t, "bigRecords") != 0
+	bigRecords := rapid.Bool().Draw(t, "bigRecords")
 	c.RegionStorage = rapid.Bool().Draw(t, "regionStorage")
 	n := 6
 	switch kind {
@@ -1364,7 +1364,7 @@ func runSync(c SCase) (vkit.Info, error) {
 		info.Class("largest-response=64KiB-1MiB")
 	}
 	info.ClassIf(c.Bulk >= 1000, "follower-behind>=1000-records")
-	info.ClassIf(c.TargetBytes > msgSize, "backlog>8MiB")
+	info.ClassIf(c.TargetBytes > msgSize && c.PadRecords > 100, "catch-up-backlog>8MiB")
 	info.ClassIf(res.restarted && res.behind == 0, "leader-restart-index-behind=0")
 	info.ClassIf(res.restarted && res.behind > 0 && res.behind <= 100, "leader-restart-index-behind=1..100")
 	info.ClassIf(res.restarted && res.behind > 100, "leader-restart-index-unrelated")
